@@ -282,7 +282,7 @@ func (g *Gen) loadTypeH(st *State, loc string, t types.Type, hint string) string
 			return cell
 		}
 		g.u.kindSort["bytes"] = "(Seq Int)"
-		el := fromRaw("(seq.nth (select "+g.heap(st, "bytes")+" (mkloc (l_obj "+loc+") (p_ebase (l_path "+loc+")))) (p_i (l_path "+loc+")))", t)
+		el := fromRaw("(seq.nth (select "+g.heap(st, "bytes")+" (mkloc (l_obj "+loc+") (pth_ebase (l_path "+loc+")))) (pth_i (l_path "+loc+")))", t)
 		return el
 	}
 	return "(select " + g.heap(st, g.u.kindOf(t)) + " " + loc + ")"
@@ -326,8 +326,8 @@ func (g *Gen) storeType(st *State, loc string, t types.Type, val string, hint st
 	if isByteLike(t) && hint == "elm" {
 		g.u.kindSort["bytes"] = "(Seq Int)"
 		hb := g.heap(st, "bytes")
-		arr := "(mkloc (l_obj " + loc + ") (p_ebase (l_path " + loc + ")))"
-		idx := "(p_i (l_path " + loc + "))"
+		arr := "(mkloc (l_obj " + loc + ") (pth_ebase (l_path " + loc + ")))"
+		idx := "(pth_i (l_path " + loc + "))"
 		upd := "(store " + hb + " " + arr + " (splice (select " + hb + " " + arr + ") " + idx + " (seq.unit " + toRaw(val, t) + ")))"
 		g.setHeap(st, "bytes", upd)
 		return
@@ -575,7 +575,7 @@ func (g *Gen) oblige(name, kind string, tags []string, guard, formula, desc stri
 			}
 			for _, t := range terms {
 				for _, sh := range g.instShifts {
-					all = append(all, "(- "+t+" "+sh+")")
+					all = append(all, "(- "+t+" "+sh+")", "(+ "+sh+" "+t+")")
 				}
 				for _, pf := range g.instPerms {
 					all = append(all, "("+pf+" "+t+")")
